@@ -6,7 +6,7 @@
  *   z<hex>  i<hex>  s<0|1>:<hex>,<hex>,...  t<hexbytes>  l<hex>,<hex>  b0/b1
  * A BInt result is printed as <raw>|t<decimal text from bintToString>; the raw form is read
  * directly from the pointer tag / struct fields, never through the code under test.
- * A signal (SIGSEGV, SIGFPE, SIGABRT from a failed assert, SIGALRM after 10 s) inside an operation
+ * A signal (SIGSEGV, SIGFPE, SIGABRT from a failed assert, SIGALRM after 4 s) inside an operation
  * prints "crash<signo>" for that line and the harness goes on with the next line.
  */
 #define _GNU_SOURCE 1
@@ -21,7 +21,8 @@
 extern void dbInit(void);
 
 static sigjmp_buf jb;
-static void onsig(int s) { siglongjmp(jb, s); }
+static int nalarm = 0;
+static void onsig(int s) { if (s == SIGALRM) nalarm++; siglongjmp(jb, s); }
 
 #define MAXTOK 8
 static char *linebuf = NULL;
@@ -255,7 +256,7 @@ int main(int argc, char **argv)
 		if (ntok == 0) { printf("badop\n"); continue; }
 		s = sigsetjmp(jb, 1);
 		if (s == 0) {
-			alarm(10);
+			alarm(nalarm > 8 ? 1 : 4);	/* a tree that hangs often is not worth minutes */
 			run(ntok, tok);
 			alarm(0);
 			printf("\n");
